@@ -303,6 +303,10 @@ where
                                     &mut shift_reduce,
                                     stidx,
                                 );
+                                if let Action::Error = StateTable::decode(actions[off]) {
+                                    // %nonassoc removed the action entirely.
+                                    state_actions.set(off, false);
+                                }
                             }
                             Action::Accept => panic!("Internal error"),
                             Action::Error => {
